@@ -60,6 +60,8 @@ def plan(tier, seed):
         specs.append({'kind': 'long', 'part': i, 'n': 4000 if tier == 'quick' else 60000})
     for v in tables.versions():
         specs.append({'kind': 'assign', 'version': v, 'n': 120 if tier == 'quick' else 1500})
+    for v in ('2.3', '2.5', '2.6', '2.7', '2.8.2') if tier == 'quick' else tables.versions():
+        specs.append({'kind': 'shared', 'version': v, 'n': 3 if tier == 'quick' else 20})
     return specs
 
 
@@ -384,9 +386,67 @@ def run_assign(spec, rec):
     drain(log, rec, v)
 
 
+def run_shared(spec, rec):
+    """one datatype object (a constant of the application) held by leaves of two messages that declare different delimiters,
+    the two messages encoded by two threads: thread 0 is pre-empted at its j-th LINE event (every j up to the length of the
+    call), thread 1 then runs its whole call.  Each encoding is the reference escaping under its own message's set."""
+    from hl7apy import core
+    from .. import sched
+    v = spec['version']
+    lib = tables.lib(v)
+    rng = gen.rng_for(spec.get('seed', 0), 'c06-shared', v)
+    for k in range(spec['n']):
+        ecs = [gen.delimiter_set(rng, v), gen.delimiter_set(rng, v)]
+        if ecs[0]['ESCAPE'] == ecs[1]['ESCAPE']:
+            continue
+        cls = rng.choice([c for c in ('ST', 'FT', 'TX') if c in lib.BASE_DATATYPES])
+        raw = 'see c:' + ecs[0]['ESCAPE'] + 'tmp' + ecs[1]['ESCAPE'] + 'q' + ecs[0]['FIELD'] + ecs[1]['FIELD'] + \
+            ecs[0]['COMPONENT'] + ecs[1]['REPETITION'] + 'x'
+        case = {'kind': 'shared-object', 'version': v, 'cls': cls, 'raw': raw,
+                'ecs': [{a: b for a, b in e.items() if a not in ('SEGMENT', 'GROUP')} for e in ecs]}
+        try:
+            obj = lib.BASE_DATATYPES[cls](raw)
+            segs = []
+            for ec in ecs:
+                m = core.Message('ADT_A01', version=v, encoding_chars=dict(ec))
+                z = core.Segment('ZZ9', version=v)
+                m.add(z)
+                z.zz9_2 = 'k'
+                z.zz9_2[0].children.list[0].children.list[0].value = obj
+                segs.append(z)
+            want = ['ZZ9' + ec['FIELD'] * 2 + er7ref.ref_escape(raw, ec, er7ref.letters_for(v)) for ec in ecs]
+            calls = [lambda z=z: z.to_er7() for z in segs]
+            seq = [c() for c in calls]
+        except Exception as e:
+            rec.violation('shared-object-raised:%s' % type(e).__name__, case, {'exc': repr(e)[:160]})
+            continue
+        rec.evaluation(('shared-object', v, cls, raw, 'sequential'))
+        if seq != want:
+            rec.violation('shared-datatype-object-encoded-with-another-set', case, {'got': seq, 'want': want, 'how': 'sequential'})
+            continue
+        j = 0
+        while True:
+            j += 1
+            out, bt, hung = sched.run_pair(calls[0], calls[1], {0: {'any': {j}}})
+            if hung:
+                rec.inconclusive_reason('shared-object schedule hung')
+                break
+            if not bt.trace:
+                break       # j is past the last event of the call
+            rec.count('shared_object_schedules')
+            rec.evaluation(('shared-object', v, cls, raw, j))
+            rec.seen('shared_object_switch_functions', '%s:%s' % (bt.trace[0][1], bt.trace[0][2]))
+            if out != want:
+                rec.violation('shared-datatype-object-encoded-with-another-set', case,
+                              {'got': out, 'want': want, 'how': 'thread 0 pre-empted at its event %d (%s:%s:%s)' % (
+                                  j, bt.trace[0][1], bt.trace[0][2], bt.trace[0][3])})
+                break
+    rec.seen('versions', v)
+
+
 def run_shard(spec, rec):
     {'grid': run_grid, 'classes': run_classes, 'randsets': run_randsets, 'long': run_long,
-     'assign': run_assign}[spec['kind']](spec, rec)
+     'assign': run_assign, 'shared': run_shared}[spec['kind']](spec, rec)
 
 
 def replay(case, rec):
@@ -407,6 +467,8 @@ def replay(case, rec):
             ec = dict(ec, ESCAPE=[c for c in '!$%*+;<=>?@' if c not in ec.values() and c not in case['value']][-1])
         cls = textual_classes(v).get(case['cls']) or textual_classes(v)['ST']
         judge_highlights(cls, case['cls'], v, case['value'], [tuple(r) for r in case['ranges']], ec, er7ref.letters_for(v), rec)
+    elif case['kind'] == 'shared-object':
+        run_shared({'version': case['version'], 'n': 6, 'seed': case.get('seed', 0)}, rec)
     else:
         rec.inconclusive_reason('assign cases replay through the tier run with the same seed')
 
@@ -414,6 +476,8 @@ def replay(case, rec):
 def floors(tier, m):
     out = []
     c = m['counters']
+    if c.get('shared_object_schedules', 0) < 500 and not m['violation_counts']:
+        out.append('schedules over a shared datatype object: %s' % c.get('shared_object_schedules'))
     if len(m['seen'].get('grid_sets', ())) < 2:
         out.append('default delimiter grids not both run')
     if c.get('grid_strings', 0) < (2 * 11 ** 4):
